@@ -59,6 +59,7 @@ def cases(tier, seed):
         out.append(('rename_%s_with_coarse_asset' % nm, dict(kind='rename', naming=nm, order=[0, 1, 2, 3], two_node=False, T=4, coarse=True)))
     out.append(('rename_and_order', dict(kind='rename', naming='numeric', order=[2, 0, 3, 1], two_node=True, T=3)))
     out.append(('many_variables_1x_x', dict(kind='rename', naming='many', order=[0, 1], two_node=False, T=12)))
+    out.append(('many_steps_nodes_N1_N11', dict(kind='rename', naming='many_nodes', order=[0, 1, 2, 3], two_node=False, T=12, many='nodes')))
     for nm, names in (('substring', ('gen', 'gen_big')), ('numeric', ('1', '12')), ('plain', ('ga', 'gb'))):
         for swap in (False, True):
             out.append(('linked_%s%s' % (nm, '_swapped' if swap else ''), dict(kind='linked', names=list(names), swap=swap, T=3)))
@@ -83,9 +84,25 @@ def build_many(D, names, T):
     return pf, tg, shapes.prices_for(D, ['p', 'q'], T), dict(c1=names[0], c2=names[1]), dict(n0='n0')
 
 
-def build(D, naming, order, two_node, T, wacc=False, coarse=False):
+def build_many_nodes(D, node_names, T):
+    """two unconnected nodes with two contracts each and two-digit step indices: a key built from node name and step without a
+    separator ('N1'+'10' == 'N11'+'0') would fuse balances of different nodes"""
+    eao = lift.import_eao()
+    tg = shapes.grid(T)
+    n0, n1 = eao.assets.Node(node_names[0]), eao.assets.Node(node_names[1])
+    c1 = shapes.mk_market(D, 'c1', n0, T, 'p')
+    m2 = shapes.mk_market(D, 'm2', n0, T, 'q', ec=True)
+    m3 = shapes.mk_market(D, 'm3', n1, T, 'q')
+    c2 = shapes.mk_market(D, 'c2', n1, T, 'p', ec=True)
+    pf = eao.portfolio.Portfolio([c1, m2, m3, c2])
+    return pf, tg, shapes.prices_for(D, ['p', 'q'], T), {r: r for r in ('c1', 'm2', 'm3', 'c2')}, dict(n0=node_names[0], n1=node_names[1])
+
+
+def build(D, naming, order, two_node, T, wacc=False, coarse=False, many=None):
     """baseline roles are the symbol names; the asset / node names are nu(role)"""
     eao = lift.import_eao()
+    if many == 'nodes':
+        return build_many_nodes(D, ('N1', 'N11') if naming == 'many_nodes' else ('n0', 'n1'), T)
     if naming == 'many':
         return build_many(D, ('1x', 'x'), T)
     if naming is None and T == 12:
@@ -177,8 +194,8 @@ def run_case(case_id, tier, seed, kind, **kw):
 
     def bld(D):
         if kind == 'rename':
-            pf, tg, prices, an, nn = build(D, kw['naming'], kw['order'], kw['two_node'], T, kw.get('wacc', False), kw.get('coarse', False))
-            pf0, tg0, prices0, an0, nn0 = build(D, None, [0, 1, 2, 3], kw['two_node'], T, kw.get('wacc', False), kw.get('coarse', False))
+            pf, tg, prices, an, nn = build(D, kw['naming'], kw['order'], kw['two_node'], T, kw.get('wacc', False), kw.get('coarse', False), kw.get('many'))
+            pf0, tg0, prices0, an0, nn0 = build(D, None, [0, 1, 2, 3], kw['two_node'], T, kw.get('wacc', False), kw.get('coarse', False), kw.get('many'))
             ren = renamer(an, nn)
             colmap = dict(assets=an, nodes=nn)
         elif kind == 'inner':
@@ -283,8 +300,8 @@ def observe(case, kwargs, env, rq):
     kind = kw.pop('kind')
     T = kw['T']
     if kind == 'rename':
-        pf, tg, prices, an, nn = build(D, kw['naming'], kw['order'], kw['two_node'], T, kw.get('wacc', False), kw.get('coarse', False))
-        pf0, tg0, prices0, _, _ = build(D, None, [0, 1, 2, 3], kw['two_node'], T, kw.get('wacc', False), kw.get('coarse', False))
+        pf, tg, prices, an, nn = build(D, kw['naming'], kw['order'], kw['two_node'], T, kw.get('wacc', False), kw.get('coarse', False), kw.get('many'))
+        pf0, tg0, prices0, _, _ = build(D, None, [0, 1, 2, 3], kw['two_node'], T, kw.get('wacc', False), kw.get('coarse', False), kw.get('many'))
     elif kind == 'inner':
         pf, tg, prices = build_inner(D, kw['which'], kw['order'], T)
         pf0, tg0, prices0 = build_inner(D, kw['which'], sorted(kw['order']), T)
